@@ -106,8 +106,8 @@ func Str(t *rapid.T, label string, o Opts) string {
 	return s
 }
 
-var identStart = []rune("abcdefxyzXYZ_*+/?!<>=λé")
-var identLater = []rune("abcxyzXYZ_*+/?!<>=λé0123456789-$")
+var identStart = []rune("abcdefxyzXYZ_*+/?!<>=λé\u029e")
+var identLater = []rune("abcxyzXYZ_*+/?!<>=λé\u029e0123456789-$")
 
 func isIdentStart(r rune) bool {
 	return r == '_' || r == '*' || r == '+' || r == '/' || r == '?' || r == '!' || r == '<' || r == '>' || r == '=' || unicode.IsLetter(r)
